@@ -1266,6 +1266,8 @@ def _emaxmin(args, name, f):
         fr.append("kind")       # sparse matrices and numbers: not stated
     if len(tcs) > 1:
         fr.append("tc")
+    if (m, n) == (1, 1) and "kind" not in fr:
+        fr.append("kind")       # all arguments 1 by 1: matrices or scalars?
     r.free = tuple(fr)
     return r
 
